@@ -100,6 +100,8 @@ type wnWorld struct {
 	faultFree bool
 	cut       bool
 	epoch     int // number of barriers passed
+	collected int64 // chunks removed by collection runs since the last barrier (worker + explicit)
+	delEpoch  map[int64]int // file -> epoch of its last API deletion
 }
 
 func (w *wnWorld) file(id int64) *wnFile {
@@ -383,6 +385,10 @@ func (w *wnWorld) exec0(phase int, o gosim.Op) {
 		if code == 200 {
 			w.mu.Lock()
 			f.local, f.cached, f.deleted = false, false, true
+			if w.delEpoch == nil {
+				w.delEpoch = map[int64]int{}
+			}
+			w.delEpoch[f.id] = w.epoch
 			f.apiDeleted = true
 			f.pinned = false
 			w.mu.Unlock()
@@ -390,6 +396,9 @@ func (w *wnWorld) exec0(phase int, o gosim.Op) {
 		}
 	case "gc":
 		n, done, err := w.n0.LS.VerifCollectGarbage()
+		w.mu.Lock()
+		w.collected += int64(n)
+		w.mu.Unlock()
 		r.Logf("gc -> collected=%d done=%v err=%v", n, done, err)
 		if n > 0 {
 			r.Count("probe_gc_collected")
@@ -458,6 +467,22 @@ func wnGen(prop string) func(rng *rand.Rand, tier string) *gosim.Plan {
 		}
 		nphase := 2 + rng.Intn(3)
 		p.Params["gc_pause_ms"] = gosim.Pick(rng, 0, 1, 20, 200)
+		if hot && prop == "C12" && rng.Intn(2) == 0 {
+			// scripted eviction chain: one file of the family is uploaded (pinned or
+			// not) and stays; the others are downloaded one after the other into a
+			// cache that holds about one of them, so that each download evicts the
+			// previous file: the chunks they share with the upload must survive
+			p.Params["capacity"] = gosim.Pick(rng, 6, 8, 10)
+			keep := int64(rng.Intn(nfiles))
+			p.Ops = append(p.Ops, gosim.Op{K: "upload", A: []int64{0, keep, int64(rng.Intn(2))}}, gosim.Op{K: "barrier"})
+			for _, f := range rng.Perm(nfiles) {
+				if int64(f) == keep {
+					continue
+				}
+				p.Ops = append(p.Ops, gosim.Op{K: "cache", A: []int64{0, int64(f)}}, gosim.Op{K: "barrier"})
+			}
+			return p
+		}
 		if hot && rng.Intn(2) == 0 {
 			// scripted family history: make all files known (uploaded, some
 			// downloaded), then delete them one after the other in a random order;
@@ -616,7 +641,11 @@ func wnExec(prop string) func(r *gosim.Run) {
 		// eviction (the package's own test hook): other clients get to touch the
 		// file that is about to be evicted
 		pause := time.Duration(r.Plan.P("gc_pause_ms", 0)) * time.Millisecond
-		localstore.VerifSetHooks(nil, func() {
+		localstore.VerifSetHooks(func(n uint64) {
+			w.mu.Lock()
+			w.collected += int64(n)
+			w.mu.Unlock()
+		}, func() {
 			r.Count("probe_gc_candidates_selected")
 			gosim.Yield()
 			if pause > 0 {
@@ -808,7 +837,14 @@ func (w *wnWorld) oracleC12() {
 	// (a) whatever collections ran so far: chunks of live local uploads are present
 	d1 := w.dump()
 	up, cachedToo := w.liveUploadedChunks()
+	w.mu.Lock()
+	collectedNow := w.collected
+	w.collected = 0
+	w.mu.Unlock()
 	for _, c := range nkSortedKeys(up) {
+		if collectedNow == 0 {
+			break // no collection run removed anything since the last barrier: a loss would not be the collector's
+		}
 		if _, ok := d1.Data[c]; !ok {
 			w.r.Violate(wnTag("uploaded-chunk-lost", cachedToo[c]), "chunk %s of locally uploaded file %d (not deleted) is no longer stored", c[:8], up[c])
 		}
@@ -843,6 +879,9 @@ func (w *wnWorld) oracleC12() {
 		}
 	}
 	for _, c := range nkSortedKeys(up) {
+		if _, was := d1.Data[c]; !was {
+			continue // not there before this run: not this run's doing
+		}
 		if _, ok := d2.Data[c]; !ok {
 			w.r.Violate(wnTag("uploaded-chunk-deleted", cachedToo[c]), "collection run deleted chunk %s of locally uploaded file %d", c[:8], up[c])
 		}
@@ -886,6 +925,14 @@ func (w *wnWorld) checkC16(d *nkDump, when string) {
 			w.mu.Unlock()
 		}
 	}
+	deletedNow := map[string]bool{} // chunks of files deleted through the API since the last barrier
+	for _, f := range files {
+		if ep, ok := w.delEpoch[f.id]; ok && ep == w.epoch {
+			for _, c := range f.chunks {
+				deletedNow[c] = true
+			}
+		}
+	}
 	needed := map[string]int64{}
 	for _, f := range files {
 		if f.uncertain || ((f.local || f.cached) && !f.deleted) {
@@ -905,11 +952,11 @@ func (w *wnWorld) checkC16(d *nkDump, when string) {
 				}
 				if _, ok := d.Data[c]; !ok {
 					cls := "other-file-broken"
-					if f.local && f.upEpoch == w.epoch && evictedNow[c] {
+					if f.local && f.upEpoch == w.epoch && (evictedNow[c] || deletedNow[c]) {
 						// known family: the upload ran concurrently with the eviction of a
 						// cached file sharing this chunk (the upload registers its chunks
 						// with the reference counting only after storing them)
-						cls += "@upload-raced-eviction"
+						cls += "@upload-raced-removal"
 					}
 					w.r.Violate(cls, "%s: chunk %s needed by file %d (local=%v cached=%v pinned=%v), which was neither deleted nor evicted, is missing", when, c[:8], f.id, f.local, f.cached, f.pinned)
 				}
